@@ -179,3 +179,53 @@ macro_rules! family {
 
 family!(v3, v3, mp::Error);
 family!(v5, v5, mp::v5::ErrorV5);
+
+/// Transport double for the async decoder: delivers `data`, but the read that would go beyond
+/// `limit` bytes fails with `kind` (after delivering nothing more) -- "a read error injected at that
+/// position".  Under Kani it implements the twin's never-pending reader trait, natively tokio's
+/// AsyncRead (one byte per poll, so that every `read_exact` is split as finely as possible).
+pub struct FaultRd<'a> {
+    pub data: &'a [u8],
+    pub pos: usize,
+    pub limit: usize,
+    pub kind: io::ErrorKind,
+}
+
+#[cfg(kani)]
+impl<'a> mp::sync_shim::AsyncRead for FaultRd<'a> {
+    fn read_exact(&mut self, buf: &mut [u8]) -> io::Result<usize> {
+        let n = buf.len();
+        let mut i = 0;
+        while i < n {
+            if self.pos >= self.limit {
+                return Err(io::Error::from(self.kind));
+            }
+            if self.pos >= self.data.len() {
+                return Err(mp::sync_shim::eof());
+            }
+            buf[i] = self.data[self.pos];
+            self.pos += 1;
+            i += 1;
+        }
+        Ok(n)
+    }
+}
+
+#[cfg(not(kani))]
+impl<'a> AsyncRead for FaultRd<'a> {
+    fn poll_read(mut self: Pin<&mut Self>, _cx: &mut Context<'_>, buf: &mut ReadBuf<'_>) -> Poll<io::Result<()>> {
+        let me = &mut *self;
+        if buf.remaining() == 0 {
+            return Poll::Ready(Ok(()));
+        }
+        if me.pos >= me.limit {
+            return Poll::Ready(Err(io::Error::from(me.kind)));
+        }
+        if me.pos >= me.data.len() {
+            return Poll::Ready(Ok(()));
+        }
+        buf.put_slice(&me.data[me.pos..me.pos + 1]);
+        me.pos += 1;
+        Poll::Ready(Ok(()))
+    }
+}
